@@ -1,0 +1,13 @@
+//! verif-hooks (C12): builds the MRT unit's HTTP processor the way
+//! `MrtFileIn::run` does, for a unit configured without `update_path`.
+use std::sync::Arc;
+
+use super::api::Processor;
+use crate::http::ProcessRequest;
+
+pub fn mrt_api_without_update_path(
+    http_api_path: &str,
+) -> Arc<dyn ProcessRequest> {
+    let (tx, _rx) = tokio::sync::mpsc::channel(1);
+    Arc::new(Processor::new(Arc::new(http_api_path.to_string()), None, tx))
+}
